@@ -124,7 +124,8 @@ class Prog:
             return impl
 
         pre = mkfn(asked + (("zz",) if ask_zz else ()), rec("pre", True), name="pre")
-        cap = mkfn(asked, rec("cap", "captured"), name="cap")
+        # (with po False the capture, too, has a defaulted parameter that is not a parameter of f)
+        cap = mkfn(asked + (() if po else ("extra_c=77",)), rec("cap", "captured"), name="cap")
         # po: the postcondition itself asks for OLD; otherwise only its error factory does, which then also has a parameter
         # with a default value that is not a parameter of f
         post = mkfn(asked + ("result",) + (("OLD",) if po else ()), rec("post", lambda: prog.h.post_truth), name="post")
@@ -232,6 +233,8 @@ def run_bind(members: Tuple[int, ...], is_async: bool, si: int, npos: int, kc: b
                 ok = False
             if tag == "err" and not po and kw.get("extra_e") != 2021:
                 ok = False
+        if tag == "cap" and not po and kw.get("extra_c") != 77:
+            ok = False
     note((repr(sig), npos, tuple(sorted(kwargs)), fail_post), True)
     return ok, True
 
